@@ -64,129 +64,83 @@ def run(ctx: Context) -> None:
     iterable_param_obligations(ctx, 'R12.1', of)
 
     # ---- R12.2 the reducer
+    from ..pattern import Matcher
     with ctx.section('R12.2 the reducer'):
         ff = ctx.func(f"{DEPTH}._find_ocean_floor_indexes")
         fflow = ctx.flow(ff)
         da, dd = ff.params[0], ff.params[1]
+        mf = Matcher(ctx, ff)
         rets = ff.returns()
         ctx.need('R12.2', len(rets) == 1, "_find_ocean_floor_indexes has one return", ff)
-        v = fflow.resolve(rets[0].value)
-        while isinstance(v, ast.Call) and (dotted(v.func) or '').endswith('cast') and len(v.args) == 2:
-            v = fflow.resolve(v.args[1])
-        ok_argmax = isinstance(v, ast.Call) and isinstance(v.func, ast.Attribute) and v.func.attr == 'argmax'
-        ctx.check('R12.2', ok_argmax, "the floor index is an argmax (last layer of a non-decreasing valid count)", ff, rets[0],
-                  construct=f"reducer: {norm_text(v.func) if isinstance(v, ast.Call) else norm_text(v)}")
-        inner = fflow.resolve(v.func.value) if ok_argmax else None
-        ok_cumsum = isinstance(inner, ast.Call) and isinstance(inner.func, ast.Attribute) and inner.func.attr == 'cumsum'
-        ctx.check('R12.2', ok_cumsum, "argmax is taken over a cumulative sum along depth", ff, rets[0],
-                  construct=f"argmax of: {norm_text(inner)[:80] if inner is not None else '?'}")
-        if ok_argmax and ok_cumsum:
-            d1 = _strip_str(v.args[0]) if v.args else kwarg(v, 'dim')
-            d2 = _strip_str(inner.args[0]) if inner.args else kwarg(inner, 'dim')
-            ok_dims = d1 is not None and d2 is not None and fflow.canon(_strip_str(d1)) == ('param', dd) and fflow.canon(_strip_str(d2)) == ('param', dd)
-            ctx.check('R12.3', ok_dims, "cumsum and argmax run along the depth dimension argument", ff, rets[0],
-                      construct=f"cumsum({norm_text(d2) if d2 is not None else '?'}).argmax({norm_text(d1) if d1 is not None else '?'})")
-            counted = fflow.resolve(inner.func.value)
-            ok_count = False
-            # data_array * 0 + 1   (NaN stays NaN, valid -> 1)   or notnull()/isfinite forms
-            if isinstance(counted, ast.BinOp) and isinstance(counted.op, ast.Add) and const_value(counted.right, None) == 1 \
-                    and isinstance(counted.left, ast.BinOp) and isinstance(counted.left.op, ast.Mult) \
-                    and const_value(counted.left.right, None) == 0 and fflow.canon(counted.left.left) == ('param', da):
-                ok_count = True
-            if isinstance(counted, ast.Call) and isinstance(counted.func, ast.Attribute) and counted.func.attr in ('notnull', 'notna') \
-                    and fflow.canon(counted.func.value) == ('param', da):
-                ok_count = True
-            ctx.check('R12.2', ok_count, "what is accumulated is 1 per valid layer of the variable (missing stays missing / zero)", ff, rets[0],
-                      construct=f"accumulated: {norm_text(counted)}")
+        am = mf.stmt('$max = $$counted.argmax($$d1)')
+        ok_argmax = am is not None and mf.match('return $max', rets[0], commit=False)
+        ctx.check('R12.2', bool(ok_argmax), "the floor index is an argmax (last layer of a non-decreasing valid count)", ff, am or rets[0],
+                  construct=f"reducer: {norm_text(am.value.func) if am is not None else norm_text(rets[0].value)}")
+        cs_ = None
+        for alt, kind in ((f"$cum = ({da} * 0 + 1).cumsum($$d2)", 'times-zero'), (f"$cum = {da}.notnull().cumsum($$d2)", 'notnull'), (f"$cum = {da}.notna().cumsum($$d2)", 'notnull')):
+            cs_ = cs_ or mf.stmt(alt)
+        ok_cumsum = am is not None and cs_ is not None and mf.match('$max = $cum.argmax($$d1)', am, commit=False)
+        ctx.check('R12.2', bool(ok_cumsum), "argmax is taken over a cumulative sum along depth", ff, cs_ or rets[0],
+                  construct=f"argmax of: {norm_text(cs_.value)[:80] if cs_ is not None else '?'}")
+        ctx.check('R12.2', cs_ is not None, "what is accumulated is 1 per valid layer of the variable (missing stays missing / zero)", ff, cs_ or rets[0],
+                  construct=f"accumulated: {norm_text(cs_.value.func.value) if cs_ is not None else '?'}")
+        d1, d2 = mf.enodes.get('d1'), mf.enodes.get('d2')
+        ok_dims = False
+        if ok_cumsum and d1 is not None and d2 is not None:
+            ok_dims = fflow.canon(_strip_str(fflow.resolve(d1))) == ('param', dd) and fflow.canon(_strip_str(fflow.resolve(d2))) == ('param', dd)
+        ctx.check('R12.3', ok_dims, "cumsum and argmax run along the depth dimension argument", ff, rets[0],
+                  construct=f"cumsum({norm_text(d2) if d2 is not None else '?'}).argmax({norm_text(d1) if d1 is not None else '?'})")
 
     # ---- R12.3 in ocean_floor
     with ctx.section('R12.3 in ocean_floor'):
-        outer = [n for n in walk_no_nested(of.node) if isinstance(n, ast.For) and isinstance(n.target, ast.Name)
-                 and n.target.id == 'depth_dimension']
-        ctx.need('R12.3', len(outer) == 1, "ocean_floor loops over the depth dimensions", of)
-        dvar = 'depth_dimension'
-        it = flow.resolve(outer[0].iter)
-        src_ok = flow.reaches(outer[0].iter, lambda n: isinstance(n, ast.Call) and callee(ctx, of, n) == f"{UTILS}.dimensions_from_coords"
-                              and len(n.args) == 2 and flow.canon(n.args[1]) != ('param', 'non_spatial_variables')
-                              and flow.reaches(n.args[1], lambda m: isinstance(m, ast.Name) and m.id == of.params[1]))
-        ctx.check('R12.3', src_ok, "the depth dimensions are those of the depth coordinates given", of, outer[0],
-                  construct=f"for depth_dimension in {norm_text(outer[0].iter)}")
-        skips = [n for n in ast.walk(outer[0]) if isinstance(n, ast.If) and isinstance(n.test, ast.Compare)
-                 and isinstance(n.test.ops[0], ast.NotIn) and norm_text(n.test.left) == dvar
-                 and any(isinstance(s, ast.Continue) for s in n.body)]
-        ok_skip = len(skips) == 1 and norm_text(skips[0].test.comparators[0]).endswith('.dims')
-        ctx.check('R12.3', ok_skip, "variables without this depth dimension are skipped", of, skips[0] if skips else outer[0],
-                  construct=f"skip test: {norm_text(skips[0].test) if skips else 'absent'}")
-        diffs = [c for c in method_calls(of, 'difference')]
-        ok_sp = False
-        if len(diffs) == 1:
-            c = diffs[0]
-            args = [norm_text(a) for a in c.args]
-            ok_sp = ('{' + dvar + '}') in args and 'non_spatial_dimensions' in args and norm_text(c.func.value).startswith('frozenset(') \
-                and norm_text(c.func.value).endswith('.dims)')
-        ctx.check('R12.3', ok_sp, "spatial dimensions = the variable's dims minus this depth dimension and the non-spatial ones", of,
-                  diffs[0] if diffs else outer[0])
+        mo = Matcher(ctx, of)
+        dcp, nsp = of.params[1], of.params[2]
+        dims_st = mo.stmt(f"$ddims = utils.dimensions_from_coords({ds}, {dcp})")
+        nsd_st = mo.stmt(f"$nsd = utils.dimensions_from_coords({ds}, {nsp})")
+        outer = None
+        if dims_st is not None:
+            for alt in ('for $dd in sorted($ddims, key=$$key):\n    ...', 'for $dd in $ddims:\n    ...', 'for $dd in sorted($ddims):\n    ...'):
+                outer = outer or mo.stmt(alt)
+        ctx.need('R12.3', outer is not None, "ocean_floor loops over the depth dimensions of the depth coordinates given", of)
+        ctx.check('R12.3', True, "the depth dimensions are those of the depth coordinates given", of, outer,
+                  construct=f"for depth_dimension in {norm_text(outer.iter)}")
+        grouping = mo.stmt("for $name, $var in " + ds + ".data_vars.items():\n"
+                           "    if $dd not in $var.dims:\n        continue\n"
+                           "    $sp = frozenset($var.dims).difference({$dd}, $nsd)\n"
+                           "    if not $sp:\n        continue\n"
+                           "    $groups[$sp].append($name)", within=outer) if nsd_st is not None else None
+        ctx.check('R12.3', grouping is not None and mo.stmt('$groups = defaultdict(list)', within=outer) is not None,
+                  "variables with this depth dimension are grouped by their spatial dimension set (their dims minus this depth dimension and the non-spatial ones); the others are skipped",
+                  of, grouping or outer, construct='groups[frozenset(variable.dims) - {depth dimension} - non spatial dimensions].append(name)')
+        inner = mo.stmt('for $sp2, $names in $groups.items():\n    ...', within=outer) if grouping is not None else None
+        ctx.need('R12.3', inner is not None, "every group of variables is reduced in turn", of)
+        ex = None
+        for alt in (f"$ex = {ds}.data_vars[$names[0]].isel({{$k: 0 for $k in $nsd}}, drop=True, missing_dims='ignore')",
+                    f"$ex = {ds}[$names[0]].isel({{$k: 0 for $k in $nsd}}, drop=True, missing_dims='ignore')"):
+            ex = ex or mo.stmt(alt, within=inner)
+        ctx.check('R12.3', ex is not None, "the example variable is the group's first, reduced to index 0 of the non-spatial dimensions only", of, ex or inner,
+                  construct=f"example = {norm_text(ex.value)[:120] if ex is not None else 'not recognised'}")
+        fc = mo.stmt('$floor = _find_ocean_floor_indexes($ex, $dd)', within=inner) if ex is not None else None
         finds = [c for c in calls_in(of) if callee(ctx, of, c) == f"{DEPTH}._find_ocean_floor_indexes"]
-        ctx.need('R12.3', len(finds) == 1, "ocean_floor calls _find_ocean_floor_indexes once per group", of)
-        fc = finds[0]
-        ok_find = len(fc.args) == 2 and norm_text(fc.args[1]) == dvar
-        ctx.check('R12.3', ok_find, "the floor is searched along this depth dimension", of, fc)
-        ex = flow.resolve(fc.args[0])
-        ok_ex = False
-        if isinstance(ex, ast.Call) and isinstance(ex.func, ast.Attribute) and ex.func.attr == 'isel' and ex.args:
-            base_var = flow.resolve(ex.func.value)
-            sel = ex.args[0]
-            ok_sel = (isinstance(sel, ast.DictComp) and const_value(sel.value, None) == 0
-                      and norm_text(sel.generators[0].iter) == 'non_spatial_dimensions' and not sel.generators[0].ifs
-                      and isinstance(sel.key, ast.Name) and isinstance(sel.generators[0].target, ast.Name)
-                      and sel.key.id == sel.generators[0].target.id)
-            ok_base = (isinstance(base_var, ast.Subscript) and isinstance(base_var.slice, ast.Subscript)
-                       and const_value(base_var.slice.slice, None) == 0 and norm_text(base_var.slice.value) == 'variable_names'
-                       and norm_text(base_var.value) in (f"{ds}.data_vars", ds))
-            md = kwarg(ex, 'missing_dims')
-            dr = kwarg(ex, 'drop')
-            ok_ex = ok_sel and ok_base and md is not None and const_value(md, None) == 'ignore' and dr is not None and const_value(dr, None) is True
-        ctx.check('R12.3', ok_ex, "the example variable is the group's first, reduced to index 0 of the non-spatial dimensions only", of, fc,
-                  construct=f"example = {norm_text(ex)[:120]}")
-        isels = [c for c in method_calls(of, 'isel') if c.args and isinstance(c.args[0], ast.Dict)]
-        ok_pick = False
-        for c in isels:
-            d = c.args[0]
-            if len(d.keys) == 1 and norm_text(d.keys[0]) == dvar and flow.resolve(d.values[0]) is fc:
-                subset = flow.alternatives(c.func.value) if isinstance(c.func.value, ast.Name) else []
-                recv_ok = flow.reaches(c.func.value, lambda n: isinstance(n, ast.Call) and callee(ctx, of, n) == f"{UTILS}.extract_vars"
-                                       and len(n.args) >= 2 and norm_text(n.args[1]) == 'variable_names')
-                dr = kwarg(c, 'drop')
-                ok_pick = recv_ok and dr is not None and const_value(dr, None) is True
-                pick = c
-        ctx.check('R12.3', ok_pick, "all variables of the group are picked at the one floor array along this depth dimension", of,
-                  isels[0] if isels else outer[0], construct='dataset_subset.isel({depth_dimension: ocean_floor_indexes}, drop=True, ...)')
-        merges = [c for c in method_calls(of, 'merge')]
-        ok_merge = False
-        if len(merges) == 1 and ok_pick:
-            m = merges[0]
-            cp = kwarg(m, 'compat')
-            ok_merge = (flow.reaches(m.func.value, lambda n: n is pick) and len(m.args) == 1 and norm_text(m.args[0]) == ds
-                        and cp is not None and const_value(cp, None) == 'override')
-            st = stmt_of(of, m)
-            ok_merge = ok_merge and isinstance(st, ast.Assign) and norm_text(st.targets[0]) == ds
-        ctx.check('R12.3', ok_merge, "the reduced group is merged over the dataset (receiver wins), replacing the layered variables", of,
-                  merges[0] if merges else outer[0], construct=f"merge: {norm_text(merges[0])[:90] if merges else 'absent'}")
-        groups = [n for n in ast.walk(outer[0]) if isinstance(n, ast.Call) and isinstance(n.func, ast.Attribute) and n.func.attr == 'append'
-                  and norm_text(n.func.value) == 'dimension_sets[spatial_dimensions]']
-        ctx.check('R12.3', len(groups) == 1 and norm_text(groups[0].args[0]) == 'name', "variables are grouped by their spatial dimension set", of,
-                  groups[0] if groups else outer[0], construct='dimension_sets[spatial_dimensions].append(name)')
-        drops = [c for c in method_calls(of, 'drop_dims')]
-        ok_drop = False
-        for c in drops:
-            st = stmt_of(of, c)
-            ok_drop = (c.args and norm_text(c.args[0]) == norm_text(outer[0].iter).replace('sorted(', '').split(',')[0].strip('()')
-                       or (c.args and 'depth_dimensions' in norm_text(c.args[0])))
-            ok_drop = ok_drop and all(flow.reaches(r.value, lambda n: n is c) for r in of.returns())
-            # after the loop
-            ok_drop = ok_drop and not any(x is c for x in ast.walk(outer[0]))
-        ctx.check('R12.3', ok_drop, "the depth dimensions are dropped from the result after all groups are reduced", of, drops[0] if drops else of.node,
-                  construct=f"drop: {norm_text(drops[0]) if drops else 'absent'}")
+        ctx.check('R12.3', fc is not None and len(finds) == 1, "the floor is searched once per group, in that example, along this depth dimension", of, fc or inner)
+        sub = mo.stmt(f"$sub = utils.extract_vars({ds}, $names)", within=inner)
+        pick = mo.stmt("$sub = $sub.isel({$dd: $floor}, drop=True, missing_dims='ignore')", within=inner) if sub is not None and fc is not None else None
+        ctx.check('R12.3', pick is not None, "all variables of the group are picked at the one floor array along this depth dimension", of,
+                  pick or inner, construct='dataset_subset.isel({depth_dimension: ocean_floor_indexes}, drop=True, ...)')
+        dropc = mo.stmt('$sub = $sub.drop_vars([$n for $n, $c in $sub.coords.items() if $c.dims == ($dd,)])', within=inner) if sub is not None else None
+        ctx.check('R12.3', dropc is not None and pick is not None and dropc.lineno < pick.lineno,
+                  "coordinates lying only on this depth dimension are dropped from the group before the pick", of, dropc or inner)
+        merge = mo.stmt(f"{ds} = $sub.merge({ds}, compat='override')", within=inner) if pick is not None else None
+        ctx.check('R12.3', merge is not None and merge.lineno > pick.lineno and len([c for c in method_calls(of, 'merge')]) == 1,
+                  "the reduced group is merged over the dataset (receiver wins), replacing the layered variables", of,
+                  merge or inner, construct=f"merge: {norm_text(merge)[:90] if merge is not None else 'absent'}")
+        drop = None
+        for alt in (f"{ds} = {ds}.drop_dims($ddims, errors='ignore')", f"{ds} = {ds}.drop_dims($ddims)"):
+            drop = drop or mo.stmt(alt)
+        ok_drop = drop is not None and drop.lineno > outer.end_lineno and not any(x is drop for x in ast.walk(outer)) \
+            and bool(of.returns()) and all(isinstance(r.value, ast.Name) and r.value.id == ds and r.lineno > drop.lineno for r in of.returns())
+        ctx.check('R12.3', ok_drop, "the depth dimensions are dropped from the result after all groups are reduced", of, drop or of.node,
+                  construct=f"drop: {norm_text(drop) if drop is not None else 'absent'}")
 
     # ---- R12.4
     with ctx.section('R12.4'):
@@ -218,8 +172,11 @@ def run(ctx: Context) -> None:
         for w in p.implementations(base, 'ocean_floor'):
             wf = ctx.flow(w)
             cs = [c for c in calls_in(w) if callee(ctx, w, c) == f"{DEPTH}.ocean_floor"]
-            ok = (len(cs) == 1 and len(cs[0].args) == 2 and wf.canon(cs[0].args[0]) == ('attr', ('param', 'self'), 'dataset')
-                  and wf.canon(cs[0].args[1]) == ('attr', ('param', 'self'), 'depth_coordinates'))
+            from .common import arg_or_kw
+            a0 = arg_or_kw(cs[0], 0, 'dataset') if len(cs) == 1 else None
+            a1 = arg_or_kw(cs[0], 1, 'depth_coordinates') if len(cs) == 1 else None
+            ok = (a0 is not None and a1 is not None and wf.canon(a0) == ('attr', ('param', 'self'), 'dataset')
+                  and wf.canon(a1) == ('attr', ('param', 'self'), 'depth_coordinates'))
             ctx.check('R12.3', ok, "Convention.ocean_floor reduces its own dataset over all of its depth coordinates", w, cs[0] if cs else w.node)
 
 
